@@ -158,15 +158,15 @@ prchunk_fill(prch_ctx_t ctx)
 	/* we just memcpy() the left over stuff to the front and restart
 	 * from there, someone left us a note in __ctx with the left
 	 * over offset */
-	/* normally we'd use memmove() but we know there's little chance
-	 * for overlapping regions */
+	/* the regions overlap when more is left over than was handed out,
+	 * i.e. with lines longer than half the buffer */
 	if (UNLIKELY(ctx->bno == 0)) {
 		/* do nothing */
 		;
 	} else if (LIKELY(ctx->bno > ctx->off)) {
 		size_t rsz = ctx->bno - ctx->off;
 		/* move the top RSZ bytes to the beginning */
-		memcpy(ctx->buf, ctx->buf + ctx->off, rsz);
+		memmove(ctx->buf, ctx->buf + ctx->off, rsz);
 		ctx->bno = rsz;
 		bno = ctx->buf + rsz;
 	} else if (UNLIKELY(ctx->bno == ctx->off)) {
